@@ -896,18 +896,29 @@ func c04Exec(r *sim.Run, sci interface{}) {
 		sp.InjectResiliencePolicy(policies)
 	}
 	cleaned := false
-	cleanup := func() {
+	// cleanup stops the pool's watcher goroutine and the registry's dispatcher.
+	// Notifications not yet taken are withdrawn first: DeregisterRegistry clears
+	// bucket.registry, which a dispatcher that still finds an event would
+	// dereference (outside this property).
+	cleanup := func(wait bool) {
 		if cleaned || !watcher {
 			return
 		}
 		cleaned = true
 		func() {
 			defer func() { recover() }()
-			close(sp.done)
+			for len(fake.notify) > 0 {
+				<-fake.notify
+			}
+			if wait {
+				sp.close()
+			} else {
+				close(sp.done)
+			}
 			sreg.DeregisterRegistry("c04reg")
 		}()
 	}
-	defer cleanup()
+	defer cleanup(false)
 	if !watcher {
 		g0 := model.newGen("static", model.static, 0)
 		g0.installed = true
@@ -1328,9 +1339,7 @@ func c04Exec(r *sim.Run, sci interface{}) {
 		fairCheck("after the final requests")
 	}
 	if watcher {
-		cleaned = true
-		sp.close()
-		sreg.DeregisterRegistry("c04reg")
+		cleanup(true)
 		r.Probe("c04.watcher_mode")
 	}
 
